@@ -37,7 +37,7 @@ RULE += (' '
          'Also one_point_interpolation kernel (outputs pre-filled with NaN) and its value oracle (by_val on/off); local AIR with QR and dense-GMRES local solves (with/without diagonal preconditioner), CSR and 2x2 BSR input.')
 THOROUGH_ROUNDS = 8
 TRUSTED = ['LAPACK local solves inside the AIR kernel', 'SciPy sparse elementwise product used to form C.multiply(A)']
-PARTIAL = ['modified classical interpolation row sums, published-formula equality and AIR: correspondence + oracle, no theorem']
+PARTIAL = ['modified classical interpolation row sums and published-formula equality: correspondence + oracle, no theorem', 'AIR: the defining local equation <=> (R A) = 0 on the pattern is a theorem (C11_air_row_annihilates_its_pattern); that the kernels solve that equation is decided by the oracle']
 HEADER = ('From Coq Require Import ZArith List PrimFloat.\nImport ListNotations.\n'
           'Require Import PV.Base.Ops PV.Model.InterpRun.\nOpen Scope Z_scope.\n')
 I32 = np.int32
